@@ -379,6 +379,10 @@ def run(ctx):
     # pass is order-sensitive through the field-id delta)
     import c03
     c03.app_exception_fields(rep, 'R04.e', prog, cg)
+    # generated types: encode() and size() walk the fields in the same order (corpus)
+    import gen_thrift
+    gen_thrift.corpus_generated(rep, 'G04.h')
+    gen_thrift.encode_size_order(rep, 'G04.o')
     rep.floor('R04.a', 70)
     rep.floor('R04.b', 25)
     rep.floor('R04.d', 20)
